@@ -3,6 +3,8 @@
 C13 "a successful sync makes the destination a superset and touches nothing else"  : Superset FilesArrive DstOnlyUntouched SrcUntouched Idempotent NothingElse
 C14 "never overwrites conflicts unless told to; failed syncs roll documents back"    : OverwriteIffStrategy ConflictLeavesFile DocOverwriteIffKeyStrategy DocRollbackExact
 C15 "options are honoured: dry-run, deep, exclude, selection, parallel"              : DryRunFrame DeepByContent ExcludeFrame SelectionFrame OrderConfluent
+Phases (syncutil.run_property): library front (generated cases, random deeper trees, scale cases) and the command line front
+`signac sync` (cli_phase; Sync.tla section 1d; violations are prefixed "cli:").
 This driver evaluates only the requirements of C14 (PROP = "C14" in the specification) and reports only those.
 """
 from .. import syncutil
